@@ -1,2 +1,2 @@
 fn main() {}
-// 766f6167
+// 6a7483f1
